@@ -29,6 +29,21 @@ REG = {
  "C12": dict(cat="exploration", technique="runtime monitoring: scoping oracle by construction of generated programs vs the four go-to requests of the built server",
    text="For generated well-typed programs (any declaration order, doc comments, equal local names in several procedures, locals hiding global procedures, all layouts) every sampled identifier occurrence is queried at its first/middle/last column with declaration, definition, typeDefinition and implementation; the answer must be exactly the name-token range of the binding known by construction (or null for predefined entities, int, anonymous array types, non-identifiers, white space, positions beyond the text); an error response or a dead server is a violation.",
    note="Trusted: bindings/types from harness/gen.py; LSP positions from harness/layout.py (UTF-16).", ref="5/C12"),
+ "C13": dict(cat="exploration", technique="runtime monitoring: occurrence-set oracle by construction + independent edit applier + fresh twins for rename round trips",
+   text="On generated well-typed programs (variables used in parentheses, after unary minus, in indices, as arguments, in conditions, as assignment targets; identifiers preceded by comments; names reused across procedures) every sampled identifier is queried with references, prepareRename and rename; results must be exactly the occurrences of the binding known by construction. For declared entities the rename is applied by an independent edit applier, the result is opened fresh (must stay free of diagnostics), references on the new name must return the same occurrence set and renaming back must restore the original text.",
+   note="Trusted: bindings from the generator, harness/lspmodel.py edit applier. main and predefined entities are exempt from the apply part.", ref="5/C13"),
+ "C14": dict(cat="exploration", technique="runtime monitoring: signature renderer over ground truth vs hover / signatureHelp responses at all call cursor positions",
+   text="For generated well-typed programs every sampled identifier is hovered (first fenced line must be the signature rendered from ground truth: kind, name, ref marker, fully resolved type; doc comments in order; range = identifier) and every call is probed with signatureHelp after `(`, after each comma, before `)`, inside and at the end of each argument (label, one entry per parameter, activeParameter = number of commas before the cursor), including predefined callees and calls nested in blocks, branches and loops.",
+   note="Trusted: generator ground truth; for predefined procedures only arity/ref/types are prescribed.", ref="5/C14"),
+ "C15": dict(cat="exploration", technique="runtime monitoring: delta decoder + reference lexer + binding oracle over semanticTokens/full, on valid and hostile documents incl. after edits",
+   text="The semantic token stream of generated well-typed programs (all layouts) and of hostile documents (token soup, mutated programs, non-ASCII; before and after an edit) is decoded against the legend announced by the same server run; a monitor demands strictly increasing, non-overlapping tokens that each start at and have the UTF-16 length of one lexical token, lexical classes for keywords/numbers/comments, and for valid programs the binding kind of every identifier with `declaration` exactly on declaring occurrences and no missing token.",
+   note="Trusted: harness/reflex.py for lexical tokens, generator bindings.", ref="5/C15"),
+ "C16": dict(cat="exploration", technique="runtime monitoring: scope/position oracle by construction over a product of position kinds x contexts x cursor placements; input-class keyed known findings",
+   text="Cursor positions are built as (kind: statement start, after := / call( / if( / while(, after : in parameter/variable declarations, top-level gaps, BOF, EOF) x (context: after { ; }, depth, before closing brace, unbraced branch) x (placement: inside white space, touching next token, own line, touching previous token) with the layout around the cursor written by the harness; the proposal multiset (label, kind) must be exactly the enclosing procedure's variables / all procedures / all types + int / only declaration starters, and no response may propose a name local to another procedure. Two input classes are known findings (K-C16-1, K-C16-2) with committed witnesses; all other classes decide.",
+   note="Keyword/snippet items ignored except for the top-level rule. Known findings are attributed only inside their input class and never excuse foreign locals.", ref="5/C16"),
+ "C17": dict(cat="exploration", technique="runtime monitoring: extent oracle by construction vs foldingRange; well-formedness monitor on hostile documents",
+   text="foldingRange of generated valid programs (doc comments, several procedures per line, CRLF, all layouts) must be exactly one range per procedure in source order from the line of `proc` to the line of its last token; on hostile documents every range must satisfy start <= end, lie inside the document and not overlap its predecessor.",
+   note="Trusted: extents from the generator and the LSP line model.", ref="5/C17"),
 }
 NOT_YET = "check not yet built in this session (work in progress; see DESIGN.md section 5 for the planned monitor)"
 
